@@ -9,3 +9,33 @@ import (
 func bytesReader(b []byte) io.Reader   { return bytes.NewReader(b) }
 func float64frombits(b uint64) float64 { return math.Float64frombits(b) }
 func nativeLeftover() int              { return 0 }
+
+type padReader struct {
+	head []byte
+	pad  int64
+}
+
+func (p *padReader) Read(b []byte) (int, error) {
+	if len(p.head) > 0 {
+		n := copy(b, p.head)
+		p.head = p.head[n:]
+		return n, nil
+	}
+	if p.pad <= 0 {
+		return 0, io.EOF
+	}
+	n := int64(len(b))
+	if n > p.pad {
+		n = p.pad
+	}
+	for i := int64(0); i < n; i++ {
+		b[i] = ' '
+	}
+	p.pad -= n
+	return int(n), nil
+}
+
+// PaddedReader yields head followed by pad spaces (without allocating them).
+func PaddedReader(head []byte, pad int64) io.Reader {
+	return &padReader{head: append([]byte{}, head...), pad: pad}
+}
